@@ -12,6 +12,7 @@ def describe(case):
 def make_relations(want, stats):
     def relations(cases, impl, model):
         stats.clear(); stats.update(histories_checked_against_reference=0, reference_outside_or_unfinished=0)
+        histcheck.STATS["answers_compared_exactly_with_continuation_reference"] = 0
         for (case, tag), (iout, ires), (mout, mres, spec) in zip(cases, impl, model):
             if spec == "-" or "(trace" not in spec: stats["reference_outside_or_unfinished"] += 1; continue
             stats["histories_checked_against_reference"] += 1
@@ -19,6 +20,7 @@ def make_relations(want, stats):
                 yield dict(case=case, tag=tag, why=why, implementation=dict(output=iout, result=ires[:3000]),
                            specification=dict(trace=spec[:3000]), readable=describe(case))
                 break
+        stats.update(histcheck.STATS)
     return relations
 
 def small_cases(alpha, nasks, rng, frac, tag, maxlen=3, second=True, must=None):
